@@ -296,10 +296,11 @@ class SolutionBenchmarkId(Contract):
             c = F.atom("cost_id%d" % i, domain=COST_IDS, sample=COST_IDS[(5 * i + 2) % len(COST_IDS)])
             vids.append(v)
             cids.append(c)
+            pid = (30, 10, 20)[i]  # deliberately not ascending: the order of the solutions is the order they were given in
             if F.native:
-                ppss[10 + i] = _NativePPS(v, c)
+                ppss[pid] = _NativePPS(v, c, pid)
             else:
-                ppss[10 + i] = F.raw(PlanningProblemSolution, __vid__=v, __cid__=c, _planning_problem_id=10 + i)
+                ppss[pid] = F.raw(PlanningProblemSolution, __vid__=v, __cid__=c, _planning_problem_id=pid)
         sol = F.raw(Solution, scenario_id=sid, _planning_problem_solutions=ppss) if not F.native else _native_solution(sid, ppss)
         return {"sol": sol, "sid": sid, "vids": vids, "cids": cids, "args": []}
 
@@ -330,8 +331,8 @@ class SolutionBenchmarkId(Contract):
 
 
 class _NativePPS:
-    def __init__(self, v, c):
-        self.vehicle_id, self.cost_id = v, c
+    def __init__(self, v, c, pid):
+        self.vehicle_id, self.cost_id, self.planning_problem_id = v, c, pid
 
 
 def _native_solution(sid, ppss):
